@@ -67,6 +67,7 @@ struct Outcome {
 
 static Outcome one_run(const Scen& s, uint64_t seed, long k, int kind, std::string* sites = nullptr) {
   Outcome o; o.r.seed = seed; o.r.k = k; o.r.kind = kind;
+  P->stage = 1;
   fi::quarantine_on = true;
   fi::record_stacks = sites != nullptr; fi::fired_nbt = 0;
   fi::mark = fi::serial; fi::since_mark[0] = fi::since_mark[1] = 0;
@@ -77,6 +78,7 @@ static Outcome one_run(const Scen& s, uint64_t seed, long k, int kind, std::stri
     try { s.fn(R); }
     catch (...) { fi::armed = false; abandon_expensive_computations = nullptr; R.failed.push_back("exception_outside_armed_call_" + pplv::exc_class()); }
   }
+  P->stage = 0;
   o.cand[0] = fi::since_mark[0]; o.cand[1] = fi::since_mark[1];
   o.netd[0] = fi::net[0] - n0[0]; o.netd[1] = fi::net[1] - n0[1];
   o.bad_free = fi::bad_free - bf0; o.bad_origin = fi::bad_origin - bo0;
@@ -102,8 +104,6 @@ static Outcome one_run(const Scen& s, uint64_t seed, long k, int kind, std::stri
   return o;
 }
 
-struct Progress { volatile long scen, k, total; };
-
 int main(int argc, char** argv) {
   const char* mode = pplv::arg_str(argc, argv, "--mode", "fault");
   uint64_t seed = (uint64_t)pplv::arg_long(argc, argv, "--seed", 1);
@@ -123,8 +123,9 @@ int main(int argc, char** argv) {
   const char* only = pplv::arg_str(argc, argv, "--only", "");
   fi::persist = pplv::arg_long(argc, argv, "--persist", 0) != 0;
   fi::bt_event = pplv::arg_long(argc, argv, "--bt", -1);
+  long cpu_limit = pplv::arg_long(argc, argv, "--cpu", 30);
   if (last > (long)S.size()) last = (long)S.size();
-  Progress* P = (Progress*)mmap(nullptr, sizeof(Progress), PROT_READ | PROT_WRITE, MAP_SHARED | MAP_ANONYMOUS, -1, 0);
+  P = (Progress*)mmap(nullptr, sizeof(Progress), PROT_READ | PROT_WRITE, MAP_SHARED | MAP_ANONYMOUS, -1, 0);
   const char* kn = kind_name(kind);
   for (long si = first; si < last; ++si) {
     const Scen& s = S[si];
@@ -133,11 +134,11 @@ int main(int argc, char** argv) {
     long kstart = -1;         // -1: dry run first
     int crashes = 0;
     while (true) {
-      P->scen = si; P->k = -1; P->total = -1;
+      P->scen = si; P->k = -1; P->total = -1; P->stage = 0;
       fflush(stdout);
       pid_t pid = fork();
       if (pid == 0) {
-        struct rlimit rl; rl.rlim_cur = 120; rl.rlim_max = 125; setrlimit(RLIMIT_CPU, &rl);
+        struct rlimit rl; rl.rlim_cur = cpu_limit; rl.rlim_max = cpu_limit + 2; setrlimit(RLIMIT_CPU, &rl);
         struct rlimit core; core.rlim_cur = core.rlim_max = 0; setrlimit(RLIMIT_CORE, &core);
         // warm-up + event count (the second dry run is the steady state)
         Outcome d0 = one_run(s, sseed, -1, kind);
@@ -153,8 +154,9 @@ int main(int argc, char** argv) {
         }
         long n = d.r.events;
         P->total = n;
-        long fired_n[2] = {0, 0}, absorbed = 0, transient = 0, reruns = 0, runs = 0, notfired = 0;
+        long soft = 0, fired_n[2] = {0, 0}, absorbed = 0, transient = 0, reruns = 0, runs = 0, notfired = 0;
         long k0 = kstart < 0 ? 0 : kstart;
+        struct timespec t0; clock_gettime(CLOCK_MONOTONIC, &t0);
         for (long k = k0; k < n; ++k) {
           if (onek > -2 && k != onek) continue;
           if (k >= kcap && ((k - kcap) % stride) != 0) continue;
@@ -170,29 +172,33 @@ int main(int argc, char** argv) {
             if (leak[0] + leak[1] == 0) ++transient;
             else { (void)one_run(s, sseed, k, kind, &sites); ++reruns; }
           }
-          bool notable = leak[0] + leak[1] > 0 || o.bad_free || o.bad_origin || o.r.failed.n > 0 || !o.r.fault_done;
-          if (notable && sites.empty() && (o.bad_free || o.bad_origin || o.r.failed.n > 0)) { (void)one_run(s, sseed, k, kind, &sites); ++reruns; }
+          int hard = 0; for (int f = 0; f < o.r.failed.n; ++f) if (o.r.failed.txt[f][0] != '~') ++hard; else ++soft;
+          bool notable = leak[0] + leak[1] > 0 || o.bad_free || o.bad_origin || hard > 0 || !o.r.fault_done;
+          if (notable && sites.empty()) { (void)one_run(s, sseed, k, kind, &sites); ++reruns; }
           if (notable || onek > -2) {
             std::ostringstream t;
             t << "fault " << kn << " " << si << " " << s.name << " k=" << k << " of=" << n << " origin=" << (!o.r.fired ? "none" : kind != K_ALLOC ? "checkpoint" : o.r.fired_origin == 0 ? "new" : "gmp")
               << " fired=" << o.r.fired << " result=" << (o.r.completed ? "completed" : o.r.threw)
               << " leak_new=" << leak[0] << " leak_gmp=" << leak[1] << " bad_free=" << o.bad_free << " bad_origin=" << o.bad_origin
               << " cand=" << o.cand[0] << "," << o.cand[1];
-            for (int f = 0; f < o.r.failed.n; ++f) t << " !" << o.r.failed.txt[f];
+            for (int f = 0; f < o.r.failed.n; ++f) t << " " << (o.r.failed.txt[f][0] == '~' ? "" : "!") << o.r.failed.txt[f];
             if (!sites.empty()) t << " " << sites;
             J.line(t.str());
           }
         }
+        struct timespec t1; clock_gettime(CLOCK_MONOTONIC, &t1);
+        long ms = (t1.tv_sec - t0.tv_sec) * 1000 + (t1.tv_nsec - t0.tv_nsec) / 1000000;
         std::ostringstream e;
         e << "done " << kn << " " << si << " " << s.name << " from=" << k0 << " of=" << n << " runs=" << runs << " fired_new=" << fired_n[0] << " fired_gmp=" << fired_n[1]
-          << " notfired=" << notfired << " absorbed=" << absorbed << " transient=" << transient << " reruns=" << reruns;
+          << " notfired=" << notfired << " absorbed=" << absorbed << " soft_not_OK=" << soft << " transient=" << transient << " reruns=" << reruns << " ms=" << ms;
         J.line(e.str());
         _exit(0);
       }
       int st = 0; waitpid(pid, &st, 0);
       if (WIFSIGNALED(st) || (WIFEXITED(st) && WEXITSTATUS(st) != 0)) {
         std::ostringstream c;
-        c << "crash " << kn << " " << si << " " << s.name << " k=" << P->k << " of=" << P->total << " "
+        c << "crash " << kn << " " << si << " " << s.name << " k=" << P->k << " of=" << P->total << " stage="
+          << (P->stage == 1 ? "setup" : P->stage == 2 ? "armed_call" : P->stage == 3 ? "post" : "runner") << " "
           << (WIFSIGNALED(st) ? pplv::signal_name(WTERMSIG(st)) : "exit");
         J.line(c.str());
         if (++crashes > 200 || P->total < 0) break;      // a dry run crashed, or hopeless
